@@ -34,9 +34,44 @@ def decls_of(f):
                 for d in e.get('decls') or []:
                     if d.get('dk') == 'Var' and d.get('n') and d.get('vid') is not None and d['vid'] not in seen:
                         seen.add(d['vid'])
-                        ls.append((e.get('ln') or 0, e.get('col') or 0, len(ls), d['n'], d.get('t') or '', d['vid']))
+                        ls.append((e.get('ln') or 0, e.get('col') or 0, len(ls), d['n'], d.get('t') or '', d['vid'], _shape(f, d.get('init'))))
     ls.sort()
-    return ps, [(n, t, v) for _, _, _, n, t, v in ls]
+    return ps, [(n, t, v, sh) for _, _, _, n, t, v, sh in ls]
+
+
+def _shape(f, init):
+    """a coarse signature of a local's initialiser (none / constant value / callee / kind), used to tell same-typed locals apart when
+    their declarations were re-ordered as well as renamed"""
+    if init is None:
+        return '-'
+    nodes = f.setdefault('_nodes_by_id', None)
+    if nodes is None:
+        nodes = {e['i']: e for b in f.get('blocks') or [] for e in b['el']}
+        f['_nodes_by_id'] = nodes
+    n = nodes.get(init) if isinstance(init, int) else init
+    for _ in range(12):
+        if n is None:
+            return '?'
+        if n.get('v') is not None:
+            return 'k:%s' % n['v']
+        if (n.get('k', '').endswith('CastExpr') or n.get('k') in ('ParenExpr', 'ExprWithCleanups', 'MaterializeTemporaryExpr', 'CXXBindTemporaryExpr')) and n.get('c'):
+            c = n['c'][0]
+            n = nodes.get(c) if isinstance(c, int) else c
+            continue
+        break
+    k = n.get('k', '?')
+    if k in ('CallExpr', 'CXXMemberCallExpr', 'CXXOperatorCallExpr', 'CXXConstructExpr'):
+        fq = n.get('fq')
+        if not fq and n.get('c'):
+            c = n['c'][0]
+            m = nodes.get(c) if isinstance(c, int) else c
+            for _ in range(6):
+                if m is not None and m.get('k', '').endswith('CastExpr') and m.get('c'):
+                    c = m['c'][0]
+                    m = nodes.get(c) if isinstance(c, int) else c
+            fq = (m or {}).get('d') or '?'
+        return 'c:' + str(fq).split('<')[0].split('::')[-1]
+    return k
 
 
 def generate(merged):
@@ -45,7 +80,7 @@ def generate(merged):
         if not f.get('blocks') or not f.get('file', '').startswith(('src/', 'include/')):
             continue
         ps, ls = decls_of(f)
-        out[key] = {'q': f['q'], 'p': ps, 'l': [[n, t] for n, t, _ in ls], 'sig': f.get('sig'), 'file': f.get('file')}
+        out[key] = {'q': f['q'], 'p': ps, 'l': [[n, t, sh] for n, t, _, sh in ls], 'sig': f.get('sig'), 'file': f.get('file')}
     return out
 
 
@@ -60,12 +95,28 @@ def _align(old, new):
             continue
         os_, ns_ = old[i1:i2], new[j1:j2]
         nt0 = lambda t: ' '.join(w for w in t.replace('*', ' * ').replace('&', ' & ').split() if w != 'const')
-        if len(os_) == len(ns_) and all(nt0(o[1]) == nt0(n[1]) for o, n in zip(os_, ns_)):
+        sig_o = [(nt0(o[1]), o[2] if len(o) > 2 else None) for o in os_]
+        sig_n = [(nt0(n[1]), n[3] if len(n) > 3 else None) for n in ns_]
+        if len(os_) == len(ns_) and None not in [x[1] for x in sig_o] and len(set(sig_o)) == len(sig_o) and sorted(sig_o) == sorted(sig_n) \
+                and sig_o != sig_n:
+            # same-typed locals re-ordered as well as renamed: type + initialiser shape identify each of them
+            pairs = [(o, ns_[sig_n.index(so)]) for o, so in zip(os_, sig_o)]
+        elif len(os_) == len(ns_) and all(nt0(o[1]) == nt0(n[1]) for o, n in zip(os_, ns_)):
             pairs = list(zip(os_, ns_))
         else:
-            # unequal stretch: pair in order within each type
-            pairs, used = [], set()
-            for o in os_:
+            # unequal stretch: first the locals that type + initialiser shape identify, then in order within each type
+            pairs, used, done = [], set(), set()
+            for oi, (o, so) in enumerate(zip(os_, sig_o)):
+                if so[1] is None or sig_o.count(so) != 1:
+                    continue
+                c = [k for k, sn in enumerate(sig_n) if sn == so]
+                if len(c) == 1:
+                    used.add(c[0])
+                    done.add(oi)
+                    pairs.append((o, ns_[c[0]]))
+            for oi, o in enumerate(os_):
+                if oi in done:
+                    continue
                 for k, n in enumerate(ns_):
                     if k not in used and nt0(n[1]) == nt0(o[1]):
                         used.add(k)
